@@ -68,7 +68,7 @@ def sensortran_files(outdir, n, nx, ts0=1253746607, step=900):
     return stamps
 
 
-def sensornet_files(outdir, n, naming, minute0=10):
+def sensornet_files(outdir, n, naming, minute0=10, drop_tail=0, info=None):
     """double-ended templates; naming 'oryx' (Oryx template, time in the name, backward channel stored aligned) or 'halo'
     (Sentinel template, names carry date + run number + file number, backward channel flipped by the reader)"""
     os.makedirs(outdir, exist_ok=True)
@@ -78,7 +78,12 @@ def sensornet_files(outdir, n, naming, minute0=10):
     first = next(i for i, l in enumerate(lines) if re.match(r"^-?\d+[.,]\d+\t", l))
     header = lines[:first]
     data = [l for l in lines[first:] if l.strip()]
+    if drop_tail:
+        data = data[:-drop_tail]  # a recording that stops closer behind the far connector
     dec = "," if "," in data[0].split("\t")[1] else "."
+    if info is not None:
+        info["x"] = [float(l.split("\t")[0].replace(",", ".")) for l in data]
+        info["fibre_end"] = next(float(l.split("\t")[1].replace(",", ".")) for l in header if l.startswith("fibre end"))
     for f in range(n):
         h = list(header)
         for i, l in enumerate(h):
